@@ -238,14 +238,18 @@ var plans = map[string]Plan{
 		Level: "exploration",
 		Rule: "cases are (generated program, named type, value): programs from the constructive generator (1-3 files; all base types; nested containers incl. unhashable keys and slice-annotated sets; typedef chains; enums; structs / unions / exceptions incl. recursive ones; defaults and constants of every literal form; services with inheritance; go.* annotations) generated with drawn option sets (zap on/off, strict enum text, single output file, no-recurse, no-embed-idl) by the working tree's compile+gen into a scratch module; for every struct, union, exception, typedef, enum, args and result type, schema-directed values (absent / present optionals, empty / non-empty containers, boundary numbers, raw double bits, unknown enum values), re-ordered on the wire for the deserializers and delivered under a drawn read segmentation. " +
 			"Oracle: bytes of x.Encode(stream) and of Encode(x.ToWire()) decode under the independent reference codec to the value with declared defaults filled; x.Decode(stream) and x.FromWire(Decode()) of a reference encoding read back (by reflection) as that value. " +
-			"Non-trivial: the type has >=2 fields or is a container typedef, and the value contains a container, nested struct or filled default. Distinct: SHA-256 of (program, type, canonical value).",
+			"Schema-violating Go values (required reference field nil, union with 0 / 2 members, nil struct element in a list / slice-set / map value / unhashable map key; planted at any depth of a valid value) must be refused by Encode and by Encode(ToWire()); every constant and Default_ constructor of the lab (complete walk) must equal the model's evaluation of the IDL literal cast to its type; Get/IsSet accessors on drawn values and nil receivers return value / declared default / zero. " +
+			"Non-trivial: the type has >=2 fields or is a container typedef, and the value contains a container, nested struct or filled default (invalid-value, static and default-bearing accessor cases always count). Distinct: SHA-256 of (program, type, canonical value[, violation]).",
 		Assumptions: []string{
 			"harness/drv converts wire trees <-> Go values by reflection following the documented Go type mapping and idlmodel.GoName; a mismatch surfaces as a driver error (key driver/*), never as silence",
 			"idlmodel reference semantics for defaults (Fill / Eval)",
 			"programs whose generated Go does not build are skipped here (counted under skipped_programs) and reported by C06",
 		},
 		Units: []Unit{
-			{Name: "c01-values", Run: "^TestC01$", Rapid: true, Shards: [2]int{12, 16}, Checks: [2]int{1000, 10000}, Lab: &LabSpec{Kind: "value", Programs: [2]int{24, 160}}},
+			{Name: "c01-values", Run: "^TestC01$", Rapid: true, Shards: [2]int{8, 16}, Checks: [2]int{1500, 10000}, Lab: &LabSpec{Kind: "value", Programs: [2]int{24, 160}}},
+			{Name: "c01-invalid", Run: "^TestC01Invalid$", Rapid: true, Shards: [2]int{4, 8}, Checks: [2]int{1500, 10000}, Lab: &LabSpec{Kind: "value", Programs: [2]int{24, 160}}},
+			{Name: "c01-accessors", Run: "^TestC01Accessors$", Rapid: true, Shards: [2]int{3, 6}, Checks: [2]int{1500, 10000}, Lab: &LabSpec{Kind: "value", Programs: [2]int{24, 160}}},
+			{Name: "c01-static", Run: "^TestC01Static$", Shards: [2]int{1, 1}, Lab: &LabSpec{Kind: "value", Programs: [2]int{24, 160}}},
 		},
 	},
 	"C06": {
@@ -261,6 +265,61 @@ var plans = map[string]Plan{
 		Units: []Unit{
 			{Name: "safe", Pkg: "./checks/c06", Run: "^TestSafe$", Shards: [2]int{5, 10}, Weight: 2},
 			{Name: "hostile", Pkg: "./checks/c06", Run: "^TestHostile$", Shards: [2]int{4, 8}, Weight: 2},
+		},
+	},
+	"C04": {
+		Level: "exploration",
+		Rule: "cases are (generated type, byte string, three read segmentations): reference encodings of valid values in shuffled wire order, encodings under an evolved writer schema (dropped / unknown / retyped fields at any depth, retyped container elements, changed union arity), grammar-aware mutations of valid encodings, and random bytes, for every struct-like type (incl. args / result structs) of freshly generated programs; plus Go values, valid or with one planted schema violation, for the serializer half. " +
+			"Oracle (differential): Decode(stream) gives the same outcome and value under every segmentation; whatever FromWire(Decode(b)) accepts, Decode(stream) accepts with an equal value (by reflection read-back and by re-encoding); Encode(stream) and Encode(ToWire()) both fail or both succeed with encodings of equal values. " +
+			"Non-trivial: evolved or mutated input accepted by at least one path; or a schema-violating Go value. Distinct: SHA-256 of (program, type, input).",
+		Assumptions: []string{
+			"the streaming path may accept more than the value path (it does not validate skipped fields): that direction is not asserted",
+			"inputs declaring a container count above 2^16 are excluded by construction (known finding K1 of C13 would kill the lab process) and counted",
+			"harness/drv reflection mapping",
+		},
+		Units: []Unit{
+			{Name: "c04", Run: "^TestC04$", Rapid: true, Shards: [2]int{10, 16}, Checks: [2]int{1500, 15000}, Lab: &LabSpec{Kind: "value", Programs: [2]int{16, 120}}},
+			{Name: "c04-encode", Run: "^TestC04Encode$", Rapid: true, Shards: [2]int{4, 8}, Checks: [2]int{1500, 10000}, Lab: &LabSpec{Kind: "value", Programs: [2]int{16, 120}}},
+		},
+	},
+	"C05": {
+		Level: "exploration",
+		Rule: "cases are (reader type R from a freshly generated program, wire tree written under an evolved schema): a valid value of R edited at random nodes of any depth by the inverse evolution steps (field removed: optional or required; unknown field of arbitrary shape injected at any boundary; known id carrying another wire kind; container with another element / key / value type; extra known member added, changing union arity), shuffled, delivered under a drawn segmentation to both decoding paths. " +
+			"Oracle: both paths return exactly what the reference projection (idlmodel.Project) computes from the wire tree: error iff a required-without-default field is missing or mistyped or a union does not end with exactly one member at any depth; otherwise the projected value with unknown / retyped fields ignored and defaults filled. " +
+			"Non-trivial: at least one edit applied. Distinct: SHA-256 of (program, type, wire encoding).",
+		Assumptions: []string{
+			"a container whose element types differ from the declared ones decodes to nil without error (seen for a required field, not a member for union arity); nil and empty containers are not distinguished when comparing",
+			"which occurrence of a duplicated field wins is not asserted (duplicates of known fields are not generated)",
+			"harness/drv reflection mapping; idlmodel.Project",
+		},
+		Units: []Unit{
+			{Name: "c05", Run: "^TestC05$", Rapid: true, Shards: [2]int{14, 16}, Checks: [2]int{1500, 15000}, Lab: &LabSpec{Kind: "value", Programs: [2]int{16, 120}}},
+		},
+	},
+	"C14": {
+		Level: "exploration",
+		Rule: "cases are triples (v, v in another wire order, v with one perturbation: leaf change, presence flip, length change, list swap, at top level or nested) of NaN-free duplicate-free logical values of every named type of freshly generated programs; all three Go values are obtained by decoding reference encodings through the generated code (value path and streaming path mixed); plus pairs of arbitrary wire values for wire.ValuesAreEqual. " +
+			"Oracle: generated Equals == wire.ValuesAreEqual of the wire forms == independent structural comparison of the logical values (doubles by ==, sets / maps as multisets, lists ordered), in both argument orders; reflexive; nil receiver / argument never panics. " +
+			"Non-trivial: the value has an unordered container with >=2 elements or the perturbation is nested. Distinct: SHA-256 of (program, type, v, perturbed v).",
+		Assumptions: []string{
+			"harness/drv reflection mapping; wiremodel.SemEqual as the structural comparison",
+		},
+		Units: []Unit{
+			{Name: "c14", Run: "^TestC14$", Rapid: true, Shards: [2]int{10, 16}, Checks: [2]int{1500, 15000}, Lab: &LabSpec{Kind: "value", Programs: [2]int{16, 120}}},
+			{Name: "wire-pairs", Pkg: "./checks/c14", Run: "^TestWirePairs$", Rapid: true, Shards: [2]int{4, 8}, Checks: [2]int{8000, 60000}},
+		},
+	},
+	"C15": {
+		Level: "exploration",
+		Rule: "cases are (generated type, value, value differing only in go.redact field values, value differing only in go.nolog fields) over programs generated with one field in two carrying go.redact and one in four go.nolog, on fields of every type, in structs, unions, exceptions and function argument / result structs, reached through lists, sets, maps and typedefs; string / binary leaves of redacted fields carry unique markers; zap generation on and off. " +
+			"Oracle: String(), Error() and the zap JSON (arrays compared as multisets) are identical for values that differ only in redacted field values; zap JSON is identical for values that differ only in no-log fields; no marker (raw, base64, decimal bytes) occurs in any output; every other set top-level field appears (Go name in String(), label key in zap) and no-log keys are absent. " +
+			"Non-trivial: a redacted field sits at nesting depth >=1 below the printed value. Distinct: SHA-256 of (program, type, value, alternative value).",
+		Assumptions: []string{
+			"zapcore JSON encoder as the log sink; presence of redacted fields (not their value) is allowed to show",
+			"harness/drv reflection mapping",
+		},
+		Units: []Unit{
+			{Name: "c15", Run: "^TestC15$", Rapid: true, Shards: [2]int{14, 16}, Checks: [2]int{1200, 12000}, Lab: &LabSpec{Kind: "redact", Programs: [2]int{16, 120}}},
 		},
 	},
 }
